@@ -103,6 +103,13 @@ Theorem C05_separators_example :
   lex [70;40;49;59;71;40;50;92;51;41;59;120;41] = LexOk (xtoks e) /\ lex [70;40;49;44;71;40;50;44;51;41;44;120;41] = LexOk (xtoks e').
 Proof. exact separators_example. Qed.
 
+
+(* array literals: one separator kind -> the flat list of the item values, for any number of items that are arbitrary
+   expressions (two-row literals: the finite cases of C05_array_literals) *)
+Theorem C05_array_is_flat_list : forall h s sp items vs evs, s <> [] -> lex s = LexOk (xtoks (XArr sp items)) -> xwp (XArr sp items) ->
+  xvals (xval h) items = (ROk vs, evs) -> parse_formula h s = (PResult (VList vs), evs).
+Proof. exact array_literal_parsed. Qed.
+
 Print Assumptions C05_integer_literal.
 Print Assumptions C05_decimal_value.
 Print Assumptions C05_string_literal.
@@ -116,3 +123,4 @@ Print Assumptions C05_cell_case_insensitive.
 Print Assumptions C05_whitespace_anywhere.
 Print Assumptions C05_local_conditions_suffice.
 Print Assumptions C05_separators_never_change_outcome.
+Print Assumptions C05_array_is_flat_list.
